@@ -2,6 +2,7 @@ import PharmpyProofs.C14.DoseidLemmas
 import PharmpyProofs.C14.ExpandLemmas
 import PharmpyProofs.C14.TadLemmas
 import PharmpyProofs.C14.AdmidLemmas
+import PharmpyProofs.C14.BaselineLemmas
 /-
   C14 — Dataset derivations agree with record-by-record event semantics.
   Property theorems only.  All theorems quantify over every record list (any
@@ -251,5 +252,65 @@ example :
     GoodBlocks [(admRows c ds).take 2, (admRows c ds).drop 2] ∧ getAdmid c ds = [1, 1, 0, 1, 1] := by
   refine ⟨?_, by decide +kernel⟩
   simp [GoodBlocks, ConstId, admRows]
+
+/-! ## baselines, ids, time-varying covariates (datasets with missing values) -/
+
+/-- a baseline is the FIRST RECORD of its individual — the record itself, whatever is missing in it -/
+theorem baselines_first_record (ds : List CRec) (r : CRec) (h : r ∈ baselines ds) :
+    (recordsOf r.id ds).head? = some r :=
+  (firstsAux_first (fun x : CRec => x.id) [] ds r h).2
+
+/-- every baseline is a record of the dataset, unchanged, and the baselines are in record order -/
+theorem baselines_records_kept (ds : List CRec) : (baselines ds).Sublist ds :=
+  firstsAux_sublist (fun x : CRec => x.id) [] ds
+
+/-- exactly one baseline / id per individual -/
+theorem ids_one_per_individual (ds : List CRec) :
+    (getIds ds).Nodup ∧ ∀ r ∈ ds, r.id ∈ getIds ds :=
+  ⟨(firstsAux_nodup (fun x : CRec => x.id) [] ds).1,
+    fun r hr => firstsAux_complete (fun x : CRec => x.id) [] ds r hr (by simp)⟩
+
+/-- every individual has its first record as baseline -/
+theorem baseline_of_every_individual (ds : List CRec) (r : CRec) (hr : r ∈ ds) :
+    ∃ b ∈ baselines ds, b.id = r.id ∧ (recordsOf r.id ds).head? = some b := by
+  have := (ids_one_per_individual ds).2 r hr
+  simp only [getIds, List.mem_map] at this
+  obtain ⟨b, hb, hid⟩ := this
+  exact ⟨b, hb, hid, hid ▸ baselines_first_record ds b hb⟩
+
+/-- locality: the baselines of two groups of individuals side by side are those of each group alone -/
+theorem baselines_local (a b : List CRec) (h : ∀ x ∈ a, ∀ y ∈ b, x.id ≠ y.id) :
+    baselines (a ++ b) = baselines a ++ baselines b :=
+  firstsAux_local (fun x : CRec => x.id) a b h
+
+/-- a column is reported time varying iff two records of one individual carry two different
+    non-missing values (missing values are no values) -/
+theorem time_varying_iff (j : Nat) (ds : List CRec) :
+    timeVarying j ds = true ↔
+      ∃ x ∈ ds, ∃ y ∈ ds, x.id = y.id ∧ ∃ a b, cell j x = some a ∧ cell j y = some b ∧ a ≠ b := by
+  unfold timeVarying
+  rw [List.any_eq_true]
+  constructor
+  · rintro ⟨i, _, hi⟩
+    have hi' := (nunique_gt_one _).mp (of_decide_eq_true hi)
+    obtain ⟨a, b, ha, hb, hne⟩ := hi'
+    simp only [List.mem_map, recordsOf, List.mem_filter, beq_iff_eq] at ha hb
+    obtain ⟨x, ⟨hx, hxi⟩, hxa⟩ := ha
+    obtain ⟨y, ⟨hy, hyi⟩, hyb⟩ := hb
+    exact ⟨x, hx, y, hy, hxi.trans hyi.symm, a, b, hxa, hyb, hne⟩
+  · rintro ⟨x, hx, y, hy, hid, a, b, hxa, hyb, hne⟩
+    refine ⟨x.id, (ids_one_per_individual ds).2 x hx, decide_eq_true ?_⟩
+    apply (nunique_gt_one _).mpr
+    refine ⟨a, b, ?_, ?_, hne⟩
+    · simp only [List.mem_map, recordsOf, List.mem_filter, beq_iff_eq]
+      exact ⟨x, ⟨hx, rfl⟩, hxa⟩
+    · simp only [List.mem_map, recordsOf, List.mem_filter, beq_iff_eq]
+      exact ⟨y, ⟨hy, hid.symm⟩, hyb⟩
+
+/-- missing values in a first record stay missing: the baseline is not completed from later records -/
+theorem baselines_missing_witness :
+    baselines [⟨0, 3, [none, some 30]⟩, ⟨1, 3, [some 70, some 30]⟩, ⟨2, 1, [some 60, none]⟩, ⟨3, 3, [some 71, none]⟩]
+      = [⟨0, 3, [none, some 30]⟩, ⟨2, 1, [some 60, none]⟩] := by
+  decide +kernel
 
 end Pharmpy.C14
